@@ -190,6 +190,9 @@ func init() {
 				}
 			}
 		}
+		for i := 0; i < tierPick(tier, 48, 960); i++ {
+			cases = append(cases, eRetryExpiryCase("C14", seed, i, "list-error"))
+		}
 		return cases
 	})
 }
